@@ -5,7 +5,10 @@
 // in-memory log; all schedules up to a preemption bound x all server answer
 // patterns (non-empty proper prefixes, HTTP 500, transport error) up to a fault
 // bound are explored; a second, -race build repeats the exploration so that
-// ThreadSanitizer judges every explored schedule.
+// ThreadSanitizer judges every explored schedule. Per execution the oracle
+// checks deliveries (exactly once, right index, per entry kind and option),
+// the return value, the four counters read through an in-package accessor, and
+// the values sent to the updater channel.
 package main
 
 import (
@@ -595,6 +598,7 @@ func worker(job string) {
 		repo = "/repo"
 	}
 	seen := map[string]bool{}
+	stopEarly := false
 	deadline := time.Now().Add(scaled(100 * time.Second))
 	if os.Getenv("VERIF_TIER") == "thorough" {
 		deadline = time.Now().Add(scaled(20 * time.Minute))
@@ -610,6 +614,9 @@ func worker(job string) {
 					return false
 				}
 				answers := strings.Join(o.answers[:min(o.reqs, len(o.answers))], ",")
+				if x.Result.Horizon {
+					stopEarly = true // a livelocked execution has thousands of choice points: its alternatives say nothing more
+				}
 				if cls != "" {
 					if !seen[cls] {
 						seen[cls] = true
@@ -618,6 +625,15 @@ func worker(job string) {
 					out.Outcomes["VIOLATION: "+cls]++
 				} else {
 					out.Outcomes[fmt.Sprintf("ok faults=%d", x.EnvDev)]++
+					if o.nupd > 0 {
+						distinct := 1
+						for i := 1; i < o.nupd && i < len(o.upd); i++ {
+							if o.upd[i] != o.upd[i-1] {
+								distinct++
+							}
+						}
+						out.Outcomes[fmt.Sprintf("ok with %d progress value(s) received, %d distinct", o.nupd, distinct)]++
+					}
 				}
 				if x.RaceNew != "" {
 					for _, r := range vx.ParseRaces(x.RaceNew, repo) {
@@ -635,7 +651,7 @@ func worker(job string) {
 				if len(out.Samples) < 2 && x.EnvDev > 0 {
 					out.Samples = append(out.Samples, map[string]any{"scenario": sc, "schedule": x.Choices, "server_answers": answers, "points": len(x.Result.Points), "steps": x.Result.Steps})
 				}
-				return true
+				return !stopEarly
 			})
 		out.Stats.Execs += st.Execs
 		out.Stats.Points += st.Points
@@ -693,13 +709,12 @@ func scenarios(thorough, race bool) []scenario {
 		}
 		if !thorough {
 			add(4, 2, 1, 2, 0, 1, nil)
-			add(4, 1, 2, 2, 0, 1, nil)
+			add(4, 1, 2, 2, 0, 1, func(s *scenario) { s.Kinds = "XPUX" }) // (second x509 entry at index 3; was the default log "XPUP")
 		}
-		add(3, 3, 1, 2, 0, 2, nil) // two back-offs: the 1 s progress ticker fires
+		add(3, 3, 1, 2, 0, 2, nil) // two back-offs (NB the 1 s progress ticker needs THREE: a sleeper due at the same instant wins the tie against the timer)
 		if thorough {
-			add(3, 2, 2, 2, 0, 2, nil)
-		} else {
-			add(2, 1, 2, 2, 0, 2, nil) // quick: the same with 2 entries (38k -> a few thousand schedules under TSan)
+			add(3, 2, 2, 2, 0, 2, nil) // 38k schedules under TSan (27k even on a 2-entry log): thorough only since the strengthening
+			add(3, 3, 1, 2, 0, 3, nil) // three back-offs: the progress goroutine ticks once
 		}
 		add(3, 3, 1, 2, 1, 0, nil)
 		add(3, 3, 2, 1, 1, 0, nil)
@@ -716,17 +731,24 @@ func scenarios(thorough, race bool) []scenario {
 			add(3, 3, 1, 2, 1, 2, nil)
 		}
 		// strengthening: IgnoreParsingErrors, all entry kinds, updater with a consumer, second x509 entry, degenerate ranges
-		add(4, 2, 2, 2, 0, 1, func(s *scenario) { s.Kinds, s.IgnoreErr = "XVWU", true })
-		add(4, 2, 2, 2, 0, 1, func(s *scenario) { s.Kinds = "NVQW" })
-		add(4, 1, 2, 2, 0, 1, func(s *scenario) { s.Kinds = "XPUX" })
-		add(3, 3, 1, 2, 0, 2, func(s *scenario) { s.Updater = 2 })
-		add(3, 1, 1, 1, 0, 4, func(s *scenario) { s.Start, s.Updater = 1, 2 })
-		add(3, 2, 2, 2, 1, 0, func(s *scenario) { s.Start = 3 })
-		add(4, 2, 2, 2, 0, 1, func(s *scenario) { s.Sth, s.Max = 2, 4 })
+		// (under ThreadSanitizer an execution costs 3-10 ms: two matchers for the counters, one fetcher; 2x2 in thorough)
+		add(4, 2, 1, 2, 0, 1, func(s *scenario) { s.Kinds, s.IgnoreErr = "XVWU", true })
+		add(4, 2, 1, 2, 0, 1, func(s *scenario) { s.Kinds = "NVQW" })
+		// three faults = three 500 ms back-offs: the 1 s ticker of the progress goroutine fires (once) while the scan is running
+		add(3, 3, 1, 1, 0, 3, func(s *scenario) { s.Updater = 2 }) // (with two matchers: 92k schedules, thorough)
+		add(3, 1, 1, 1, 0, 3, func(s *scenario) { s.Start, s.Updater = 1, 2 })
+		add(3, 2, 2, 1, 1, 0, func(s *scenario) { s.Start = 3 })
+		add(4, 2, 2, 1, 0, 1, func(s *scenario) { s.Sth, s.Max = 2, 4 })
 		if thorough {
+			add(4, 1, 2, 2, 0, 1, func(s *scenario) { s.Kinds = "XPUX" })
+			add(4, 2, 2, 2, 0, 1, func(s *scenario) { s.Kinds, s.IgnoreErr = "XVWU", true })
+			add(4, 2, 2, 2, 0, 1, func(s *scenario) { s.Kinds = "NVQW" })
+			add(4, 2, 2, 2, 0, 1, func(s *scenario) { s.Sth, s.Max = 2, 4 })
+			add(3, 1, 1, 1, 0, 5, func(s *scenario) { s.Start, s.Updater = 1, 2 })
 			add(4, 2, 2, 2, 1, 0, func(s *scenario) { s.Kinds, s.IgnoreErr = "XVWU", true })
 			add(4, 2, 1, 2, 1, 1, func(s *scenario) { s.Kinds = "XPUX" })
-			add(3, 1, 1, 1, 1, 2, func(s *scenario) { s.Start, s.Updater = 1, 2 })
+			add(3, 1, 1, 1, 1, 3, func(s *scenario) { s.Start, s.Updater = 1, 2 })
+			add(3, 3, 1, 2, 0, 3, func(s *scenario) { s.Updater = 2 })
 		}
 		return out
 	}
@@ -745,11 +767,9 @@ func scenarios(thorough, race bool) []scenario {
 		}
 		add(int(nb[0]), nb[1], 2, 2, 0, 1, nil)
 	}
-	if !thorough {
-		// quick: two fetchers x two matchers under one preemption on a 2-entry log (the 3-entry one, 260k schedules
-		// and the longest job of the tier, moved to thorough to make room for the scenarios below)
-		add(2, 1, 2, 2, 1, 0, nil)
-	}
+	// (two fetchers x two matchers under one preemption is 230k-260k schedules even on a 2-entry log: it was the longest
+	// job of the quick tier and now runs in thorough only, to make room for the scenarios below; quick keeps 2x2 at
+	// PB=0 with 1 and 2 faults, and 1x2 / 2x1 at PB=1)
 	// option axes
 	add(4, 2, 2, 1, 1, 0, func(s *scenario) { s.Start = 1 })
 	add(4, 2, 2, 1, 0, 1, func(s *scenario) { s.Start = 1 })
@@ -760,8 +780,9 @@ func scenarios(thorough, race bool) []scenario {
 	add(3, 2, 1, 2, 1, 0, func(s *scenario) { s.Updater = 0 })
 	add(3, 2, 2, 2, 0, 1, func(s *scenario) { s.Updater = 0 })
 	add(4, 2, 1, 1, 1, 1, func(s *scenario) { s.Start, s.Max = 1, 3 })
-	// two faults, no preemption: the 1 s progress ticker fires during the second 500 ms back-off
-	add(3, 3, 1, 2, 0, 2, nil)
+	// three faults, no preemption: the 1 s progress ticker fires when the third 500 ms back-off begins (with two
+	// back-offs it never does: the sleeper due at t = 1 s wins the tie against the timer and the scan then runs to its end)
+	add(3, 3, 1, 2, 0, 3, nil)
 	add(4, 2, 2, 2, 0, 2, nil)
 	// ---- strengthening ----
 	// IgnoreParsingErrors on/off over all entry kinds (see the table at the top); counters are asserted in every scenario
@@ -775,14 +796,21 @@ func scenarios(thorough, race bool) []scenario {
 	add(4, 2, 1, 2, 1, 0, func(s *scenario) { s.Kinds = "XPUX" })
 	add(4, 1, 2, 2, 0, 1, func(s *scenario) { s.Kinds = "XPUX" })
 	add(4, 2, 1, 1, 1, 1, func(s *scenario) { s.Kinds = "XPUX" })
-	// updater channel with a consumer thread; four faults = two ticks of the progress goroutine with different values
-	add(3, 3, 1, 2, 0, 2, func(s *scenario) { s.Updater = 2 })
-	add(3, 1, 1, 1, 0, 4, func(s *scenario) { s.Start, s.Updater = 1, 2 })
-	add(3, 2, 1, 1, 1, 2, func(s *scenario) { s.Updater = 2 })
+	// updater channel with a consumer thread; three faults = one tick of the progress goroutine, five faults = two ticks
+	// (the second with a larger value when an entry was processed in between)
+	add(3, 3, 1, 1, 0, 3, func(s *scenario) { s.Updater = 2 })
+	add(3, 1, 1, 1, 0, 5, func(s *scenario) { s.Start, s.Updater = 1, 2 })
+	if thorough {
+		add(3, 3, 1, 2, 0, 3, func(s *scenario) { s.Updater = 2 }) // 92k schedules
+		add(3, 2, 1, 1, 1, 3, func(s *scenario) { s.Updater = 2 }) // 326k schedules
+	}
 	// degenerate ranges: start == stop, start > stop
-	add(3, 2, 2, 2, 1, 1, func(s *scenario) { s.Start = 3 })
-	add(3, 2, 2, 1, 1, 1, func(s *scenario) { s.Start, s.Max = 2, 2 })
-	add(3, 2, 1, 2, 1, 1, func(s *scenario) { s.Start, s.Max = 3, 1 })
+	add(3, 2, 2, 1, 1, 1, func(s *scenario) { s.Start = 3 })
+	add(3, 2, 1, 2, 1, 1, func(s *scenario) { s.Start, s.Max = 2, 2 })
+	add(3, 2, 1, 1, 1, 1, func(s *scenario) { s.Start, s.Max = 3, 1 })
+	if thorough {
+		add(3, 2, 2, 2, 1, 1, func(s *scenario) { s.Start = 3 })
+	}
 	// MaximumIndex beyond the tree size of the STH (the log has grown to N since), and an STH smaller than the log
 	add(4, 2, 1, 2, 1, 0, func(s *scenario) { s.Sth, s.Max = 2, 4 })
 	add(4, 2, 2, 1, 0, 1, func(s *scenario) { s.Sth, s.Max = 2, 3 })
@@ -793,8 +821,7 @@ func scenarios(thorough, race bool) []scenario {
 		add(4, 2, 1, 2, 1, 1, func(s *scenario) { s.Kinds = "NVQW" })
 		add(4, 2, 1, 2, 1, 1, func(s *scenario) { s.Kinds = "XPUX" })
 		add(4, 1, 2, 2, 1, 0, func(s *scenario) { s.Kinds = "XPUX" })
-		add(3, 1, 1, 2, 1, 2, func(s *scenario) { s.Start, s.Updater = 1, 2 })
-		add(3, 1, 1, 1, 1, 4, func(s *scenario) { s.Start, s.Updater = 1, 2 })
+		add(3, 1, 1, 2, 1, 3, func(s *scenario) { s.Start, s.Updater = 1, 2 })
 		add(4, 2, 2, 2, 1, 0, func(s *scenario) { s.Sth, s.Max = 2, 4 })
 		add(4, 2, 1, 2, 1, 1, nil)
 		add(3, 2, 1, 1, 2, 1, nil)
@@ -822,6 +849,25 @@ func scaled(d time.Duration) time.Duration {
 	return d
 }
 
+// byCost orders the scenarios so that the expensive ones start first (a heuristic from the measured sizes:
+// threads x bounds x number of ranges); the order has no influence on what is explored.
+func byCost(scs []scenario) []scenario {
+	cost := func(s scenario) int64 {
+		ranges := int64(1)
+		if n := s.stop() - s.Start; n > 0 && s.Batch > 0 {
+			ranges = (n + s.Batch - 1) / s.Batch
+		}
+		c := int64(s.Fetchers*s.Fetchers*s.Workers*s.Workers) * int64(1+4*s.PB) * int64(1+s.EB) * ranges
+		if s.Updater == 2 {
+			c *= 2
+		}
+		return c
+	}
+	out := append([]scenario(nil), scs...)
+	sort.SliceStable(out, func(a, b int) bool { return cost(out[a]) > cost(out[b]) })
+	return out
+}
+
 func main() {
 	for i, a := range os.Args {
 		if a == "-worker" && i+1 < len(os.Args) {
@@ -832,13 +878,16 @@ func main() {
 	_ = flag.CommandLine
 	ev.Main("C17", "model_checking", func(c *ev.Ctx) {
 		thorough := !c.Quick()
-		c.Rule("stateless model checking of the real scanner.Scan + LogClient under a cooperative scheduler: per scenario (log size, batch size, fetchers, matchers, start/max index, precert-only, updater) every schedule with <= PB preemptions x every server answer pattern (all entries / each non-empty proper prefix / HTTP 500 / transport error per get-entries request) with <= EB non-default answers; a second pass in a -race build lets ThreadSanitizer judge each explored schedule. states = executions; non-trivial = executions with at least one choice point.")
+		c.Rule("stateless model checking of the real scanner.Scan + LogClient under a cooperative scheduler: per scenario (log of <= 4 entries of the kinds {x509 clean, x509 with non-fatal parse errors, x509 not shaped like a certificate, x509 certificate-shaped but unparsable, precert, precert with an unparsable TBS, precert whose TBS is certificate-shaped but unparsable}, batch size, 1-2 fetchers, 1-2 matchers, start/max index incl. start >= stop and MaximumIndex beyond the STH tree size (log grown since), STH smaller than the log, precert-only, IgnoreParsingErrors, updater nil / buffered / one slot with a consumer thread) every schedule with <= PB preemptions x every server answer pattern (all entries / each non-empty proper prefix / HTTP 500 / transport error per get-entries request) with <= EB non-default answers (bounds per scenario in per_scenario; quick: PB<=1, EB<=2, and 3 / 5 in the scenarios that make the 1 s progress ticker fire once / twice: three 500 ms back-offs are needed for one tick); a second pass in a -race build lets ThreadSanitizer judge each explored schedule. " +
+			"Oracle per execution: no panic, deadlock or livelock; Scan returns start + number of entries in [start, stop); every entry of the range reaches matcher and callback exactly once with its own index (unparsable ones: dropped, or with IgnoreParsingErrors handed to the callback without the matcher when certificate-shaped; where the documentation is ambiguous both are accepted, never twice); after Scan certsProcessed, precertsSeen, unparsableEntries, entriesWithNonFatalErrors equal the counts derived from the model log; the values received from the updater channel never decrease and lie in [start, stop]. A worker process that dies with a Go runtime fatal error / unrecovered panic in the code under test is a violation (worker crash). states = executions; non-trivial = executions with at least one choice point.")
 		c.Assume("scheduling points: every sync.Mutex/WaitGroup/atomic/channel/go/time operation of ct/scanner/scanner.go (source rewritten onto shims at build time) and every HTTP round trip",
 			"the scheduler hand-off is invisible to ThreadSanitizer (plain word spin in //go:norace code), so a race report concerns only the program's own synchronisation",
-			"virtual time advances only when no thread can run (timers fire at quiescence)")
+			"virtual time advances only when no thread can run (timers fire at quiescence): the progress goroutine only ticks while every other thread is blocked (back-off sleeps)",
+			"the scheduler model has no rendezvous channels: the unbuffered updater channel is approximated by one slot plus a consumer thread",
+			"a request for indices beyond the log (MaximumIndex larger than what the server holds) is outside the property's server hypothesis (the fetcher retries for ever by design) and not explored")
 		self, _ := os.Executable()
 		raceBin := os.Getenv("C17_RACE_BIN")
-		scs := scenarios(thorough, false)
+		scs := byCost(scenarios(thorough, false))
 		if c.Replay != nil {
 			var w struct {
 				Scenario scenario `json:"scenario"`
@@ -869,12 +918,27 @@ func main() {
 		if thorough {
 			perJob = scaled(24 * time.Minute)
 		}
+		t0 := time.Now()
 		outs := vx.RunWorkers(self, []string{"VERIF_TIER=" + c.Tier}, jobs, c.Workers(), perJob)
+		c.Set("sched_pass_wall_s", int(time.Since(t0).Seconds()))
 		perScenario := map[string]any{}
 		defer func() { c.Set("per_scenario", perScenario) }()
 		merge := func(outs []vx.WorkerOut, tag string) {
 			for _, o := range outs {
 				if o.Broken != "" {
+					// a worker that died without a result: a crash of the code under test under some schedule is a
+					// verdict (the scenario is the witness); a kill on timeout / out of memory says nothing (incomplete)
+					repo := os.Getenv("VERIF_REPO_DIR")
+					if repo == "" {
+						repo = "/repo"
+					}
+					if cls := vx.CrashClass(o.Stderr, repo); cls != "" {
+						var sc scenario
+						json.Unmarshal([]byte(o.Job), &sc)
+						c.Violation("worker crash: "+cls, map[string]any{"scenario": sc, "schedule": []int{}, "pass": tag, "stderr": clip(o.Stderr, 1500)})
+						c.Outcome(tag+" worker crashed: "+cls, 1)
+						continue
+					}
 					c.Incomplete(tag + " worker: " + o.Broken)
 					c.Outcome(tag+" worker broken", 1)
 					continue
@@ -914,11 +978,13 @@ func main() {
 			c.Broken("race canary failed: %+v", can)
 		}
 		var rjobs []string
-		for _, s := range scenarios(thorough, true) {
+		for _, s := range byCost(scenarios(thorough, true)) {
 			s.Race = true
 			rjobs = append(rjobs, s.String())
 		}
+		t1 := time.Now()
 		routs := vx.RunWorkers(raceBin, []string{"GORACE=log_path=" + raceLog + " halt_on_error=0", "VX_RACELOG=" + raceLog, "VERIF_TIER=" + c.Tier}, rjobs, c.Workers(), perJob)
+		c.Set("race_pass_wall_s", int(time.Since(t1).Seconds()))
 		merge(routs, "race")
 		matches, _ := filepath.Glob(raceLog + ".*")
 		for _, m := range matches {
